@@ -440,6 +440,10 @@ fn run_scenario(cx: &mut Cx, s: &Scenario) {
                         if e.exact && !e.contains {
                             cx.rep.fail("exact_inconsistent", format!("{} ({}): contains_exact_word but not contains_word for {:?}", b.def.name, b.def.ty, query.q), fail_input.clone());
                         }
+                        // (fix ebb53b3, C15_exact_own_word) a word of the dictionary is an exact word of it, as stored
+                        if b.word_set.contains(&q) && !e.exact {
+                            cx.rep.fail("exact_own_word", format!("{} ({}): {:?} is listed by words_iter but contains_exact_word({:?}) is false", b.def.name, b.def.ty, query.q, query.q), fail_input.clone());
+                        }
                         if e.from_id != e.canon {
                             cx.rep.fail("exact_inconsistent", format!("{} ({}): get_word_from_id(id(q)) differs from get_correct_capitalization_of(q) for {:?}", b.def.name, b.def.ty, query.q), fail_input.clone());
                         }
@@ -1034,7 +1038,7 @@ pub fn run(a: &Args, corpus: &[Value]) {
     if std::env::var("C15_TIMING").is_ok() { eprintln!("t3 {:?}", t_start.elapsed()); }
     // ---- (4) the distance function through a one-word MutableDictionary (d = 255 sees every value) ----
     // (the extracted buffer-faithful model is cubic in the length: few long cases in the quick tier)
-    let n_long = a.scale(14, 210);
+    let n_long = a.scale(14, 140);
     for it in 0..a.scale(600, 6000) {
         let alphabet: &[char] = *r.pick(&[&['a', 'b'][..], &['a', 'b', 'c', 'd'][..], &['a', 'b', 'A'][..]]);
         let (ls, lt) = match if it < n_long { it % 7 } else { 7 + r.below(9) } {
